@@ -5,6 +5,22 @@
 
 package rsec16
 
+import "github.com/akalin/gopar/gf2p16"
+
+// specFn2: the type of the logical functions of the matrix-application contracts.
+type specFn2 = func(int, int) gf2p16.T
+
+// specDotL is the row-by-column product over GF(2^16): the sum (xor) over j < n of
+// cf(i, j) * wf(j, k), where cf gives the matrix coefficients and wf the k-th 16-bit word of
+// input row j. cf and wf are mathematical functions (logical variables of the contracts below),
+// so the value does not depend on any memory.
+func specDotL(cf specFn2, wf specFn2, i, k, n int) gf2p16.T {
+	if n <= 0 {
+		return 0
+	}
+	return specDotL(cf, wf, i, k, n-1) ^ gf2p16.SpecGfmul(cf(i, n-1), wf(n-1, k))
+}
+
 //@ func calculateParallelParams
 //@   props C12 C07
 //@   pure
@@ -26,19 +42,76 @@ package rsec16
 //@ pred matOK(m) = m.rows > 0 && m.columns > 0 && mathint(len(m.elements)) == mathint(m.rows) * mathint(m.columns)
 
 // shardsOK: every input row and every output row in [r0, r1) holds at least n bytes,
-// and no input row overlaps an output row.
-//@ pred shardsOK(in, out, r0, r1, n) = forall(j, 0, len(in), len(in[j]) >= n, in[j]) && forall(r, r0, r1, len(out[r]) >= n, out[r]) && forall(j, 0, len(in), forall(r, r0, r1, disjoint(in[j], out[r]), out[r]), in[j])
+// no input row overlaps an output row, and the output rows do not overlap one another.
+//@ pred shardsOK(in, out, r0, r1, n) = forall(j, 0, len(in), len(in[j]) >= n, in[j]) && forall(r, r0, r1, len(out[r]) >= n, out[r]) && forall(j, 0, len(in), forall(r, r0, r1, disjoint(in[j], out[r]), out[r]), in[j]) && forall(r, r0, r1, forall(q, r0, r, disjoint(out[r], out[q]), out[q]), out[r])
+
+// The two defining equations of specDotL, as lemmas (used with a universally quantified word index).
+//@ lemma dotZero
+//@   props C12 C07
+//@   mode int
+//@   forall cf specFn2, wf specFn2, i int, k int
+//@   ensures specDotL(cf, wf, i, k, 0) == 0
+
+//@ lemma dotStep
+//@   props C12 C07
+//@   mode int
+//@   forall cf specFn2, wf specFn2, i int, k int, n int
+//@   opaque
+//@   requires n >= 0 && n < 4611686018427387904
+//@   ensures specDotL(cf, wf, i, k, n+1) == specDotL(cf, wf, i, k, n) ^ gf2p16.SpecGfmul(cf(i, n), wf(n, k))
+
+// The contracts below are parameterised by two logical (mathematical) functions cf and wf. Every
+// requires clause that mentions them is dotIn(...), which only DEFINES them pointwise on a
+// range (cf(r,j) := M[r][j], wf(j,k) := word k of row j); witnesses therefore always exist, which
+// is what `logical-definitional` declares: a caller that has no cf/wf of its own gets fresh
+// symbols and may assume the dotIn clause for them.
+// dotIn(cf, wf, m, in, r0, r1, k0, k1): the logical functions are the data: cf(r, j) is the matrix
+// coefficient for output row r and input row j, wf(j, k) is word k of input row j.
+//@ pred dotIn(cf, wf, m, in, r0, r1, k0, k1) = forall(r, r0, r1, forall(j, 0, len(in), cf(r, j) == m.elements[r*m.columns+j])) && forall(j, 0, len(in), forall(k, k0, k1, wf(j, k) == gf2p16.SpecWord(in[j], k)))
+// keptOut(out, r0, r1, b0, b1): every byte of every row of out that lies outside rows r0..r1 /
+// bytes b0..b1 has the value it had before the call (the frame, stated byte by byte so that
+// callers need no region reasoning).
+//@ pred keptOut(out, r0, r1, b0, b1) = forall(r, 0, len(out), forall(b, 0, len(out[r]), implies(r < r0 || r >= r1 || b < b0 || b >= b1, out[r][b] == old(out[r][b]))))
+// dotOut(cf, wf, in, out, r0, r1, k0, k1): rows r0..r1, words k0..k1 of out hold the product.
+//@ pred dotOut(cf, wf, in, out, r0, r1, k0, k1) = forall(r, r0, r1, forall(k, k0, k1, gf2p16.SpecWord(out[r], k) == specDotL(cf, wf, r, k, len(in))))
 
 //@ func applyMatrixSlice
 //@   props C12 C07
 //@   inst-counters
+//@   opaque
+//@   logical cf : specFn2
+//@   logical wf : specFn2
+//@   logical-definitional
+//@   inst dataStart/2 + k
+//@   inst k - dataStart/2
+//@   requires dataStart % 2 == 0
+//@   requires dotIn(cf, wf, m, in, outStart, outEnd, 0, len(in[0])/2)
+//@   ensures dotOut(cf, wf, in, out, outStart, outEnd, dataStart/2, dataEnd/2)
+//@   ensures dotIn(cf, wf, m, in, outStart, outEnd, 0, len(in[0])/2)
+//@   ensures keptOut(out, outStart, outEnd, dataStart, dataEnd)
 //@   requires matOK(m) && len(in) >= 1 && len(in) <= m.columns
 //@   requires 0 <= outStart && outEnd <= len(out) && outEnd <= m.rows
+//@   requires forall(r, 0, len(out), forall(q, 0, r, disjoint(out[r], out[q]), out[q]), out[r])
+//@   requires forall(j, 0, len(in), len(in[j]) >= len(in[0]), in[j])
 //@   requires 0 <= dataStart && dataStart <= dataEnd && (dataEnd - dataStart) % 2 == 0
 //@   requires shardsOK(in, out, outStart, outEnd, dataEnd)
 //@   modifies each r outStart outEnd : out[r][dataStart:dataEnd]
 //@   loop 0
 //@     invariant i >= outStart
+//@     invariant dataEnd % 2 == 0 && dataEnd/2 <= len(in[0])/2 && dataStart/2 + (dataEnd - dataStart)/2 == dataEnd/2
+//@     invariant dotOut(cf, wf, in, out, outStart, i, dataStart/2, dataEnd/2)
+//@     invariant dotIn(cf, wf, m, in, outStart, outEnd, 0, len(in[0])/2)
+//@     invariant keptOut(out, outStart, outEnd, dataStart, dataEnd)
+//@     use dotZero(cf, wf, i, ?k)
+//@     use dotStep(cf, wf, i, ?k, 0)
+//@   loop 1
+//@     invariant j <= len(in) && sameSlice(outSlice, out[i][dataStart:dataEnd]) && outStart <= i && i < outEnd
+//@     invariant dataEnd % 2 == 0 && dataEnd/2 <= len(in[0])/2 && dataStart/2 + (dataEnd - dataStart)/2 == dataEnd/2
+//@     invariant forall(k, 0, (dataEnd - dataStart)/2, gf2p16.SpecWord(outSlice, k) == specDotL(cf, wf, i, dataStart/2 + k, j))
+//@     invariant dotIn(cf, wf, m, in, outStart, outEnd, 0, len(in[0])/2)
+//@     invariant dotOut(cf, wf, in, out, outStart, i, dataStart/2, dataEnd/2)
+//@     invariant keptOut(out, outStart, outEnd, dataStart, dataEnd)
+//@     use dotStep(cf, wf, i, ?k, j)
 
 // applyOK: what every entry point needs from (m, in, out): at least one input row, a matrix
 // with a row per output row and a column per input row, rows of one even length n, inputs
@@ -48,7 +121,13 @@ package rsec16
 //@ func applyMatrixSingle
 //@   props C12 C07
 //@   inst-counters
+//@   opaque
+//@   logical cf : specFn2
+//@   logical wf : specFn2
+//@   logical-definitional
 //@   requires applyOK(m, in, out)
+//@   requires dotIn(cf, wf, m, in, 0, len(out), 0, len(in[0])/2)
+//@   ensures dotOut(cf, wf, in, out, 0, len(out), 0, len(in[0])/2)
 //@   panics len(in[0]) != len(out[0])
 //@   modifies each r 0 len(out) : out[r][0:len(in[0])]
 
@@ -58,6 +137,13 @@ package rsec16
 //@   forall a int, b int, c int
 //@   requires 0 <= a && a <= b && c >= 0
 //@   ensures mathint(a)*mathint(c) <= mathint(b)*mathint(c)
+
+//@ lemma mulSucc
+//@   props C12 C07
+//@   mode int
+//@   forall a int, c int
+//@   requires a >= 0 && a < 4611686018427387904
+//@   ensures mathint(a + 1) * mathint(c) == mathint(a) * mathint(c) + mathint(c)
 
 //@ lemma mulMod16
 //@   props C12 C07
@@ -70,7 +156,15 @@ package rsec16
 //@ func applyMatrixParallelData$1
 //@   props C12 C07
 //@   inst-counters
+//@   opaque
+//@   logical cf : specFn2
+//@   logical wf : specFn2
+//@   logical-definitional
 //@   requires applyOK(m, in, out) && dataLength == len(in[0])
+//@   requires dotIn(cf, wf, m, in, 0, len(out), 0, dataLength/2)
+//@   ensures dotOut(cf, wf, in, out, 0, len(out), (mathint(i) * mathint(perGoroutineDataLength))/2, min(mathint(i) * mathint(perGoroutineDataLength) + mathint(perGoroutineDataLength), mathint(dataLength))/2)
+//@   ensures dotIn(cf, wf, m, in, 0, len(out), 0, dataLength/2)
+//@   ensures keptOut(out, 0, len(out), mathint(i) * mathint(perGoroutineDataLength), min(mathint(i) * mathint(perGoroutineDataLength) + mathint(perGoroutineDataLength), mathint(dataLength)))
 //@   requires i >= 0 && perGoroutineDataLength >= 16 && perGoroutineDataLength % 16 == 0 && mathint(i) * mathint(perGoroutineDataLength) < mathint(dataLength)
 //@   footprint mathint(i) * mathint(perGoroutineDataLength) ; min(mathint(i) * mathint(perGoroutineDataLength) + mathint(perGoroutineDataLength), mathint(dataLength))
 //@   assert-call applyMatrixSlice : arg3 == 0 && arg4 == len(out) && mathint(arg5) == mathint(i) * mathint(perGoroutineDataLength) && mathint(arg6) == min(mathint(i) * mathint(perGoroutineDataLength) + mathint(perGoroutineDataLength), mathint(dataLength))
@@ -80,19 +174,39 @@ package rsec16
 //@ func applyMatrixParallelData
 //@   props C12 C07
 //@   inst-counters
+//@   opaque
+//@   inst 2*k
+//@   inst 2*k + 1
+//@   logical cf : specFn2
+//@   logical wf : specFn2
+//@   logical-definitional
 //@   requires applyOK(m, in, out)
+//@   requires dotIn(cf, wf, m, in, 0, len(out), 0, len(in[0])/2)
+//@   ensures dotOut(cf, wf, in, out, 0, len(out), 0, len(in[0])/2)
 //@   panics len(in[0]) != len(out[0]) || numGoroutines < 1
 //@   forkjoin 0 ; numGoroutines ; dataLength ; x / perGoroutineDataLength
 //@   modifies each r 0 len(out) : out[r][0:len(in[0])]
 //@   loop 0
 //@     invariant i >= 0
+//@     invariant dotIn(cf, wf, m, in, 0, len(out), 0, dataLength/2)
+//@     invariant applyOK(m, in, out) && dataLength == len(in[0])
+//@     use mulSucc(i, perGoroutineDataLength)
+//@     invariant dotOut(cf, wf, in, out, 0, len(out), 0, min(mathint(i) * mathint(perGoroutineDataLength), mathint(dataLength))/2)
 //@     use mulLe(i, numGoroutines - 1, perGoroutineDataLength)
 //@     use mulLe(0, i, perGoroutineDataLength)
 
 //@ func applyMatrixParallelOut$1
 //@   props C12 C07
 //@   inst-counters
+//@   opaque
+//@   logical cf : specFn2
+//@   logical wf : specFn2
+//@   logical-definitional
 //@   requires applyOK(m, in, out) && outLength == len(out)
+//@   requires dotIn(cf, wf, m, in, 0, len(out), 0, len(in[0])/2)
+//@   ensures dotOut(cf, wf, in, out, mathint(i) * mathint(perGoroutineOutLength), min(mathint(i) * mathint(perGoroutineOutLength) + mathint(perGoroutineOutLength), mathint(outLength)), 0, len(in[0])/2)
+//@   ensures dotIn(cf, wf, m, in, 0, len(out), 0, len(in[0])/2)
+//@   ensures keptOut(out, mathint(i) * mathint(perGoroutineOutLength), min(mathint(i) * mathint(perGoroutineOutLength) + mathint(perGoroutineOutLength), mathint(outLength)), 0, len(in[0]))
 //@   requires i >= 0 && perGoroutineOutLength >= 1 && mathint(i) * mathint(perGoroutineOutLength) < mathint(outLength)
 //@   footprint mathint(i) * mathint(perGoroutineOutLength) ; min(mathint(i) * mathint(perGoroutineOutLength) + mathint(perGoroutineOutLength), mathint(outLength))
 //@   assert-call applyMatrixSlice : arg5 == 0 && arg6 == len(in[0]) && mathint(arg3) == mathint(i) * mathint(perGoroutineOutLength) && mathint(arg4) == min(mathint(i) * mathint(perGoroutineOutLength) + mathint(perGoroutineOutLength), mathint(outLength))
@@ -101,12 +215,24 @@ package rsec16
 //@ func applyMatrixParallelOut
 //@   props C12 C07
 //@   inst-counters
+//@   opaque
+//@   inst 2*k
+//@   inst 2*k + 1
+//@   logical cf : specFn2
+//@   logical wf : specFn2
+//@   logical-definitional
 //@   requires applyOK(m, in, out)
+//@   requires dotIn(cf, wf, m, in, 0, len(out), 0, len(in[0])/2)
+//@   ensures dotOut(cf, wf, in, out, 0, len(out), 0, len(in[0])/2)
 //@   panics len(in[0]) != len(out[0]) || numGoroutines < 1
 //@   forkjoin 0 ; numGoroutines ; outLength ; x / perGoroutineOutLength
 //@   modifies each r 0 len(out) : out[r][0:len(in[0])]
 //@   loop 0
 //@     invariant i >= 0
+//@     invariant dotIn(cf, wf, m, in, 0, len(out), 0, len(in[0])/2)
+//@     invariant applyOK(m, in, out) && outLength == len(out)
+//@     use mulSucc(i, perGoroutineOutLength)
+//@     invariant dotOut(cf, wf, in, out, 0, min(mathint(i) * mathint(perGoroutineOutLength), mathint(outLength)), 0, len(in[0])/2)
 //@     use mulLe(i, numGoroutines - 1, perGoroutineOutLength)
 //@     use mulLe(0, i, perGoroutineOutLength)
 
@@ -121,18 +247,34 @@ package rsec16
 //@ func (Coder).applyMatrix
 //@   props C07 C12
 //@   inst-counters
+//@   opaque
+//@   logical cf : specFn2
+//@   logical wf : specFn2
+//@   logical-definitional
 //@   requires applyOK(m, in, out) && c.numGoroutines >= 1
+//@   requires dotIn(cf, wf, m, in, 0, len(out), 0, len(in[0])/2)
+//@   ensures dotOut(cf, wf, in, out, 0, len(out), 0, len(in[0])/2)
 //@   panics len(in[0]) != len(out[0])
 //@   modifies each r 0 len(out) : out[r][0:len(in[0])]
 
+// C07/C05/C12: every 16-bit word of every parity row is the row-by-column product of the parity
+// matrix with the corresponding words of the data rows: parity[r] word k = sum_j M[r][j]*data[j] word k
+// (cf = the matrix, wf = the data words), for every goroutine count.
 //@ func (Coder).GenerateParity
 //@   props C07 C12
 //@   inst-counters
+//@   opaque
+//@   logical cf : specFn2
+//@   logical wf : specFn2
+//@   logical-definitional
+//@   requires dotIn(cf, wf, c.parityMatrix, data, 0, c.parityShards, 0, len(data[0])/2)
+//@   ensures dotOut(cf, wf, data, result, 0, c.parityShards, 0, len(data[0])/2)
 //@   requires coderOK(c) && len(data) == c.dataShards && len(data[0]) % 2 == 0 && rowsLen(data, len(data[0]))
 //@   modifies nothing
 //@   ensures len(result) == c.parityShards && rowsLen(result, len(data[0]))
 //@   loop 0
 //@     invariant forall(r, 0, rangeindex + 1, len(parity[r]) == len(data[0]) && fresh(parity[r]), parity[r])
+//@     invariant forall(r, 0, rangeindex + 1, allocated(parity[r]) && forall(q, 0, r, !sameArray(parity[r], parity[q]), parity[q]), parity[r])
 
 // idxIn(s, n): every element of the index list s is in [0, n)
 //@ pred idxIn(s, n) = forall(k, 0, len(s), 0 <= s[k] && s[k] < n, s[k])
@@ -196,9 +338,12 @@ package rsec16
 //@   loop 2
 //@     modifies nothing
 //@     invariant forall(r, 0, rangeindex + 1, len(reconstructedData[r]) == n && fresh(reconstructedData[r]), reconstructedData[r])
+//@     invariant forall(r, 0, rangeindex + 1, allocated(reconstructedData[r]) && forall(q, 0, r, !sameArray(reconstructedData[r], reconstructedData[q]), reconstructedData[q]), reconstructedData[r])
 //@     invariant inRows(input, n) && fresh(reconstructedData) && own(input)
+//@     invariant forall(k, 0, len(missingRows), forall(q, 0, len(data), implies(missingRows[k] == q, old(data[q]) == nil)), missingRows[k])
 //@   loop 3
 //@     invariant idxIn(missingRows, len(data)) && own(missingRows)
+//@     invariant forall(k, 0, len(missingRows), forall(q, 0, len(data), implies(missingRows[k] == q, old(data[q]) == nil)), missingRows[k])
 //@     invariant forall(r, 0, len(reconstructedData), len(reconstructedData[r]) == n && fresh(reconstructedData[r]), reconstructedData[r])
 //@     invariant fresh(reconstructedData)
 //@     invariant forall(r, 0, len(data), implies(old(data[r]) != nil, sameSlice(data[r], old(data[r]))))
